@@ -121,9 +121,17 @@ def finding_for(findings, prop, harness_name, obligation):
     return None
 
 
+def replay_dir(prop):
+    # runs against a scratch copy of the sources (self-tests of the machinery, possibly several at once) keep their replay
+    # files apart from those of the registered checks
+    if REPO != '/repo':
+        return os.path.join(ROOT, 'replays', '_scratch_%d' % os.getpid(), prop)
+    return os.path.join(ROOT, 'replays', prop)
+
+
 def native_replay(prop, h, res, tier):
     """Replay a counter-model against the real code under the repository's interpreter."""
-    d = os.path.join(ROOT, 'replays', prop)
+    d = replay_dir(prop)
     os.makedirs(d, exist_ok=True)
     safe = re.sub(r'[^A-Za-z0-9_.@-]+', '_', '%s__%s' % (h.name, res['name']))[:150]
     path = os.path.join(d, safe + '.json')
@@ -171,7 +179,7 @@ def main(argv=None):
         return 3
     import shutil
     if not a.only:
-        shutil.rmtree(os.path.join(ROOT, 'replays', a.prop), ignore_errors=True)
+        shutil.rmtree(replay_dir(a.prop), ignore_errors=True)
     ctx = mp.get_context('fork')
     with ctx.Pool(min(a.jobs, len(hs))) as pool:
         outs = pool.map(run_harness, [(h.name, a.tier) for h in hs], chunksize=1)
@@ -386,5 +394,17 @@ def write_evidence(a, hs, n_obl, n_dis, n_known, violations, undecided, crashes,
         print('CHECKER-ERROR: evidence does not validate:', str(ex)[:500])
 
 
+def safe_main(argv=None):
+    """A failure of the checker itself is exit 3 - never a violation."""
+    try:
+        return main(argv)
+    except SystemExit:
+        raise
+    except BaseException:
+        traceback.print_exc()
+        print('CHECKER-ERROR: the check driver crashed (see traceback above)')
+        return 3
+
+
 if __name__ == '__main__':
-    sys.exit(main())
+    sys.exit(safe_main())
